@@ -140,8 +140,9 @@ type world struct {
 	fail       int
 	totalFails bool
 	// TimeBasedConnection: what the EdgeGetter was asked (limit) and what it answered
-	getterLimits []int
-	getterEdges  []edgeT
+	getterLimits  []int
+	getterEdges   []edgeT
+	getterAnswers []sexp.Node // ((sync|promise) edges) per call, in call order
 	mixed        bool // the getter answers some calls directly and some through a promise
 }
 
@@ -255,8 +256,10 @@ func getAPI(k apiKey) *apifu.API {
 				cur.getterLimits = append(cur.getterLimits, limit)
 				cur.getterEdges = append(cur.getterEdges, in...)
 				if k.promise && (!cur.mixed || cur.r.Bool()) {
+					cur.getterAnswers = append(cur.getterAnswers, sexp.L(sexp.Sym("promise"), edgesSexp(in)))
 					return apifu.Go(ctx.Context, func() (interface{}, error) { return in, nil }), nil
 				}
+				cur.getterAnswers = append(cur.getterAnswers, sexp.L(sexp.Sym("sync"), edgesSexp(in)))
 				if len(in) == 0 && cur.r.Bool() {
 					return nil, nil
 				}
@@ -615,6 +618,7 @@ func reqFields(q request, calls []sexp.Node, o observed) []sexp.Node {
 		sexp.T("after", q.after.sexp()), sexp.T("before", q.before.sexp()),
 		sexp.T("after-pos", q.after.posSexp()), sexp.T("before-pos", q.before.posSexp()),
 		sexp.T("calls", sexp.L(calls...)), sexp.T("obs", o.node),
+		sexp.T("getter-answers", sexp.L(cur.getterAnswers...)),
 	}
 }
 
